@@ -77,7 +77,15 @@ def gen_case(rng, big: bool):
         opts["max_solutions"] = rng.choice([0, 1, 2, 3, 5])
     if rng.random() < 0.2:
         opts["max_iter"] = rng.choice([1, 2, 3, 5, 8, 13, 30])
-    return {"matrix": mat, "columns": names, "secondary": sec, "opts": opts}
+    case = {"matrix": mat, "columns": names, "secondary": sec, "opts": opts}
+    if rng.random() < 0.3:  # how the (same) input is presented: Sequence types other than list, bool entries,
+        case["present"] = {"rows": rng.choice(["list", "tuple", "mixed"]),       # aliased row objects
+                           "matrix": rng.choice(["list", "tuple"]),
+                           "entries": rng.choice(["int", "bool"]),
+                           "names": rng.choice(["list", "tuple"]),
+                           "secondary": rng.choice(["list", "tuple", "set", "frozenset"]),
+                           "alias_equal_rows": rng.random() < 0.5}
+    return case
 
 
 def gen_dense_secondary(rng, big: bool):
@@ -128,8 +136,26 @@ def impl(case):
         kw["columns"] = list(case["columns"])
     if case["secondary"] is not None:
         kw["secondary"] = list(case["secondary"])
+    pr = case.get("present")
+    if pr:  # same input, other Sequence types / bool entries / equal rows sharing one object
+        if pr["entries"] == "bool":
+            m = [[bool(v) for v in r] for r in m]
+        if pr["alias_equal_rows"]:
+            seen = {}
+            m = [seen.setdefault(tuple(r), r) for r in m]
+        if pr["rows"] == "tuple":
+            m = [tuple(r) for r in m]
+        elif pr["rows"] == "mixed":
+            m = [tuple(r) if i % 2 else r for i, r in enumerate(m)]
+        if pr["matrix"] == "tuple":
+            m = tuple(m)
+        if "columns" in kw and pr["names"] == "tuple":
+            kw["columns"] = tuple(kw["columns"])
+        if "secondary" in kw:
+            kw["secondary"] = {"list": list, "tuple": tuple, "set": set, "frozenset": frozenset}[pr["secondary"]](kw["secondary"])
+    before = copy.deepcopy(m)
     r1 = solve_exact_cover(m, **kw)
-    unchanged = m == case["matrix"]
+    unchanged = m == before
     r2 = solve_exact_cover(m, **kw)
 
     def canon(r):
